@@ -23,7 +23,7 @@ inductive PExp
   | val                                   -- the argument of `__call__`
   | self (attr : String)                  -- `self.<attr>`
   | int (i : Int)
-  | none
+  | noneLit
   | cmp (op : CmpOp) (a b : PExp)
   | mod (a b : PExp)
   | len (a : PExp)
@@ -65,7 +65,7 @@ def PExp.eval (env : SelfEnv) (x : PyVal) : PExp → Except Exn PyVal
   | .val => .ok x
   | .self a => .ok (env.attr a)
   | .int i => .ok (.int i)
-  | .none => .ok .none
+  | .noneLit => .ok .none
   -- `a % b == 0`: the model has the fused operation only
   | .cmp .eq (.mod a b) (.int 0) =>
     match a.eval env x, b.eval env x with
@@ -73,7 +73,7 @@ def PExp.eval (env : SelfEnv) (x : PyVal) : PExp → Except Exn PyVal
     | .error e, _ => .error e
     | _, .error e => .error e
   -- `self.pattern.match(e) is not None`
-  | .cmp .isNot (.meth1 (.self "pattern") "match" e) .none =>
+  | .cmp .isNot (.meth1 (.self "pattern") "match" e) .noneLit =>
     match env.pat, e.eval env x with
     | some p, .ok v => boolV ((PredK.regex p).call v)
     | none, .ok _ => .error .other
